@@ -144,6 +144,44 @@ def _nest(v, depth, as_dict):
     return v
 
 
+class _RecBytes(io.BytesIO):
+    """BytesIO that also records the write()/flush() calls made on it."""
+
+    def __init__(self):
+        io.BytesIO.__init__(self)
+        self.calls = []
+
+    def write(self, data):
+        self.calls.append(("write", len(data)))
+        return io.BytesIO.write(self, data)
+
+    def writelines(self, lines):
+        for ln in lines:
+            self.write(ln)
+
+    def flush(self):
+        self.calls.append(("flush",))
+        return io.BytesIO.flush(self)
+
+
+class _RecText(io.StringIO):
+    def __init__(self):
+        io.StringIO.__init__(self)
+        self.calls = []
+
+    def write(self, data):
+        self.calls.append(("write", len(data)))
+        return io.StringIO.write(self, data)
+
+    def writelines(self, lines):
+        for ln in lines:
+            self.write(ln)
+
+    def flush(self):
+        self.calls.append(("flush",))
+        return io.StringIO.flush(self)
+
+
 CORNERS = [
     ("int-min64", lambda: -(2 ** 63)),
     ("int-max64", lambda: 2 ** 63 - 1),
@@ -167,6 +205,12 @@ CORNERS = [
     ("empty-dict", lambda: {}),
     ("unicode-key", lambda: {"ké\n\"y": 1, "": 2}),
     ("mixed", lambda: [1, "a", None, True, 1.5, {"x": []}]),
+    # sizes around the usual buffer thresholds (4 KiB, 8 KiB, 64 KiB, 1 MiB): still one write per line
+    ("text-4k", lambda: "a" * 4096),
+    ("text-8k", lambda: "é" * 8192),
+    ("text-64k", lambda: "z" * 65536),
+    ("text-1M", lambda: "\U0001f600" * (1 << 18)),
+    ("list-70k", lambda: list(range(12000))),
 ]
 RICH = [
     ("path", lambda: Path("/var/log/é.log"), lambda: "/var/log/é.log"),
@@ -246,8 +290,8 @@ def body_E1(ctx):
             return {"mine": True}
         return json_default(o)
 
-    b = io.BytesIO()
-    t = io.StringIO()
+    b = _RecBytes()
+    t = _RecText()
     how = ctx.choose(4, "how the destination is made")
     if how == 3:
         import codecs
@@ -283,6 +327,12 @@ def body_E1(ctx):
             ctx.fail("a message nested %d levels deep is not written at all: %s" % (depth, e), sig="C10:nesting-beyond-orjson-limit")
         raise
     raw = b.getvalue()
+    # the one-write-per-line discipline, for payloads of every size
+    for fobj, label in ((b, "binary"), (t, "text")):
+        if fobj is None:
+            continue
+        io_calls = [c for c in fobj.calls if c != ("write", 0)]  # the mode probe writes nothing
+        ctx.check([c[0] for c in io_calls] == ["write", "flush"], "the %s file saw the calls %r for one message (%s, %d bytes): a reader can observe a partial line", label, [c[0] for c in io_calls], name, len(raw))
     if ctx.shard.get("reoffer", 1):
         # offer the very same dict object again after changing it in place
         message["value2"] = "changed"
@@ -345,6 +395,6 @@ OBLIGATIONS = [
         shards={"quick": [{"deep": 50}], "thorough": [{"deep": 50}, {"deep": 200}]},
         twin=[{"deep": 50, "twin_label": "rich-nested"}],
         timeout={"quick": 100, "thorough": 300},
-        bounds={"quick": "22 JSON-native corner classes + 8 rich values (path, date, time, 4 sets, complex) + custom json_default, nesting depth {0,1,3,50,250,300} in lists or dicts, binary and text files, made by FileDestination(json_default=) / FileDestination(encoder=) / to_file() / over a codecs.getwriter text stream - witnesses per class, not a for-all claim"},
+        bounds={"quick": "27 JSON-native corner classes (incl. texts of 4 KiB, 8 KiB, 64 KiB, 1 MiB and a 70 KB list) + 8 rich values (path, date, time, 4 sets, complex) + custom json_default, nesting depth {0,1,3,50,250,300} in lists or dicts, binary and text files, made by FileDestination(json_default=) / FileDestination(encoder=) / to_file() / over a codecs.getwriter text stream - witnesses per class, not a for-all claim"},
     ),
 ]
